@@ -32,6 +32,7 @@ FIXED = [
  ("C12", "sync/unsynced-above-limit-at-idle", "fix: close performs the index dumps", "a deletion marker appended to a closed blob is synced only by the deferred re-dump; close() dropped a pending re-dump, so the marker's bytes stayed un-synced after close() and - when that blob became the active one at the next start - above the limit at idle (found by the thorough tier, 1 case in 10 000)"),
  ("C12", "sync/unsynced-above-limit-at-idle", "fix: restoring the active blob requests", "close the active blob, delete into it (marker appended to the closed blob), restore it: the active blob carries un-synced bytes above the limit and nothing requests a sync (found by a seed sweep of the quick tier)"),
  ("C14", "close/err", "fix: an index loaded back from disk switches", "a delete into a closed blob (or a restore) dropped while the index is loaded back leaves the index in memory with the old, off-loaded filter: every later dump of that blob fails ('Filter buffer offloaded, can't serialize') - silently in the background, and as an error of close() since close performs pending dumps"),
+ ("C14", "cancel/close_active/after-drop/read/mismatch", "fix: closing the active blob takes the blob list lock", "try_close_active_blob dropped at the lock of the closed-blob list, which it awaited AFTER taking the active blob out of its slot (the lock is free, but a runtime resource may answer Pending when the task's cooperative budget is used up): the blob object is dropped, its acknowledged records answer NotFound until restart"),
  ("C12", "sync/explicit-fsyncdata-noop", "fix: Storage::fsyncdata always", "explicit fsyncdata() issues no sync below the dirty-byte limit"),
 ]
 OPEN = [
